@@ -36,7 +36,7 @@ void generate(Rng& r, Workload& w, int tier) {
     int part = int(r.below(P_N));
     if (part >= P_SV_NOINIT_DESTROY && r.chance(1, 2)) part = int(r.below(3));
     w.cfg = {part, int64_t(r.below(5)), int64_t(r.below(4)), int64_t(r.below(2))};
-    int n = int(r.range(1, tier ? 90 : 60));
+    int n = int(r.range(1, tier ? 200 : 60));
     if (part <= P_RING_TRACKED) {
         for (int i = 0; i < n; ++i) {
             uint64_t k = r.below(100);
